@@ -77,7 +77,10 @@ class C18(Property):
             for _ in range(rng.choice([4, 8, 12, 20, 30])):
                 r = rng.random()
                 i = rng.randrange(len(pl))
-                Lt = rng.choice(["-", g.bits64(rng.uniform(1.0, 400.0)), g.bits64(1e-3), g.bits64(0.0)])
+                # requested lengths the decoder never produces but the API accepts: negative, -0.0, subnormal, infinite, NaN (seed C18-n:
+                # an owned curve that caches its total distance reports the requested negative length, a borrowed one 0)
+                Lt = rng.choice(["-", g.bits64(rng.uniform(1.0, 400.0)), g.bits64(1e-3), g.bits64(0.0), g.bits64(rng.uniform(1.0, 400.0)),
+                                 g.bits64(-1.0), g.bits64(-120.0), g.bits64(-0.0), g.bits64(5e-324), g.bits64(float("inf")), g.bits64(float("nan")), g.bits64(-1e-300)])
                 if r < 0.2:
                     ops.append(f"o{i}:{Lt}")
                 elif r < 0.45:
